@@ -112,6 +112,25 @@ def cases(rng, tier):
     c = "STORE " + ops_text(ops)
     INFO[c] = ops
     out.append(c)
+    # directed: replies of many kilobytes - one large record, many middling records under one name, very many small records
+    # below one name, an SRV answer dragging a large set of addresses along: everything that matches is in the reply whatever
+    # its size (the property has no size clause)
+    big = [b"big", b"local"]
+    stores = []
+    stores.append([{"name": big, "class": 1, "ttl": 120, "cf": False, "rdata": ("T", "TXT", [("L", [(0, bytes([65 + j % 26]) * 255) for j in range(n)])])}
+                   for n in (40,)])
+    stores.append([{"name": big, "class": 1, "ttl": 120, "cf": False, "rdata": ("T", "TXT", [("L", [(0, b"%03d" % j + b"y" * 197)])])} for j in range(50)])
+    stores.append([{"name": [b"h%03d" % j] + big, "class": 1, "ttl": 120, "cf": False, "rdata": ("T", "A", [("I", 0x0a000000 + j)])} for j in range(450)]
+                  + [{"name": big, "class": 1, "ttl": 120, "cf": False, "rdata": ("T", "TXT", [("L", [(0, b"x")])])}])
+    stores.append([{"name": big, "class": 1, "ttl": 120, "cf": False, "rdata": ("T", "SRV", [("I", 0), ("I", 0), ("I", 80), ("N", [b"host"] + big)])}]
+                  + [{"name": [b"host"] + big, "class": 1, "ttl": 120, "cf": False, "rdata": ("T", "AAAA", [("I", (0xfe80 << 112) + j)])} for j in range(400)])
+    for recs in stores:
+        ops = [("AA", r) for r in recs]
+        for qt in (255, 16, 1, 33):
+            ops.append(("R", query_pkt(8, [{"name": big, "qtype": qt, "qclass": 1, "uni": False}])))
+        c = "STORE " + ops_text(ops)
+        INFO[c] = ops
+        out.append(c)
     # random op sequences with removes, clears, cached records and two-question queries
     for _ in range(800 if tier == "quick" else 8000):
         ops = []
